@@ -93,13 +93,13 @@ func main() {
 }
 
 type rewriter struct {
-	fset    *token.FileSet
-	info    *types.Info
-	file    *ast.File
-	pkg     *types.Package
-	rel     string
-	changed bool
-	tmp     int
+	fset     *token.FileSet
+	info     *types.Info
+	file     *ast.File
+	pkg      *types.Package
+	rel      string
+	changed  bool
+	tmp      int
 	commRecv map[ast.Node]bool // receive expressions that are the Comm of a select clause
 	okRecv   map[ast.Node]bool // receive expressions in a two-value context
 	labeled  map[ast.Node]bool // statements that carry a label
